@@ -646,9 +646,9 @@ Proof. reflexivity. Qed.
 (* 8. print = render . canon                                           *)
 (* ================================================================== *)
 
-Lemma items_render : forall st d pr cn l first,
+Lemma items_render : forall st d pr cn l (first : bool),
   Forall (fun x => pr x = render (cn x)) l -> l <> [] ->
-  (if first then [] else sep_ws st) ++ p_items st d pr l ++ indent st d ++ [93] =
+  (if first then @nil byte else sep_ws st) ++ p_items st d pr l ++ indent st d ++ [93] =
   r_items (deco_arr st d first (map cn l)).
 Proof.
   intros st d pr cn. induction l as [|x t IH]; intros first HF Hne; [congruence|].
